@@ -61,6 +61,7 @@ func (e *Engine) verifyFunc(fn *ssa.Function, c *Contract) (fres *FuncResult) {
 		fres.Notes = x.notes
 	}()
 	st := &State{ep: &Epoch{id: 0, kind: "base"}, H: map[string]string{}, C: map[*ssa.Alloc]*Val{}}
+	x.entry = st.clone()
 	var args []*Val
 	for _, p := range fn.Params {
 		v := x.fresh(p.Type(), p.Name(), "true", st)
